@@ -222,6 +222,8 @@ def load_one(lit: LineIterator, norm_threshold: float = 1e-4) -> dict:
         raise LoadError("Coordinates not found.", lit)
     if obasis is None:
         raise LoadError("Orbital basis not found.", lit)
+    if "mulliken" in atcharges and len(atcharges["mulliken"]) != len(atnums):
+        raise LoadError("The number of charges differs from the number of atoms.", lit)
     if coeffsa is None:
         raise LoadError("Alpha orbitals not found.", lit)
     if occsa is None:
